@@ -25,7 +25,7 @@ ASSUMPTIONS = [
     "the file system and UTF-8 decoding are trusted: the policy file is its decoded text; files are real temp files outside the repository",
     "models without priority columns (sort_policies_by_priority is the identity) and with the default auto_build_role_links = True",
     "filtered_exact is proved for every file, filter and memory (F20 repaired: filter_line tokenizes like load_policy_line and a filter longer than the rule skips it only for a non-blank extra value); every generated file, including bracketed commas, leading commas and long filters, is judged against the property",
-    "after a failed FULL load memory is what it was, so the property keeps deciding the following saves (F26a fixed, F26b open); what a failed FILTERED load leaves in memory is not judged (see C11), only compared with the model",
+    "after a failed FULL load memory is what it was, so the property keeps deciding the following saves (F26a fixed, F26b open); a failed load_filtered_policy leaves memory as it was too (F26c fixed); what a failed INCREMENTAL filtered load has appended is not judged, only compared with the model",
     "filter values are compared modulo surrounding blanks, as the blankness test itself is",
 ]
 TRUSTED_EXTRA = ["CPython str.strip/split: modelled in lean/CasbinV/Py/Str.lean, validated against CPython by the C10 check"]
@@ -380,7 +380,13 @@ def eval_history(casbin, part, mode, mname, text, ops, ans, tmp):
             # implementation: judge it, then stop following this history - unless only the adapter's flag differs: the
             # specification of the following saves (ghost state + file) does not depend on it, and those saves are
             # exactly where a wrong flag becomes a violation
-            if (impl_state[0], impl_state[1], impl_state[3]) != (model_state[0], model_state[1], model_state[3]) or [tuple(x) for x in edges] != medges:
+            failed_load = op[0] in ("load", "loadf") and res.startswith("!") and impl_state[0] == model_state[0] and impl_state[3] == model_state[3]
+            if failed_load:
+                # both sides agree that the (full or filtered) load failed and on the file: what memory holds afterwards is
+                # exactly what the property's "a partial view is never written" is about - the following saves are judged
+                # against the specification (memory as it was before the failed call)
+                pass
+            elif (impl_state[0], impl_state[1], impl_state[3]) != (model_state[0], model_state[1], model_state[3]) or [tuple(x) for x in edges] != medges:
                 stop = True
         # ---- the property
         if spec != "?":
